@@ -1,13 +1,13 @@
 package checks
 
 import (
-	"encoding/hex"
-	"embed"
-	"crypto/sha512"
-	"crypto/sha256"
 	"bytes"
 	"crypto/aes"
 	"crypto/cipher"
+	"crypto/sha256"
+	"crypto/sha512"
+	"embed"
+	"encoding/hex"
 	"encoding/json"
 	"fmt"
 	"math/rand/v2"
